@@ -4,7 +4,7 @@ from simlab import chain_evolve  # noqa: F401  (registers ops)
 from simlab import chain_thermal  # noqa: F401  (registers ops)
 
 W_C09 = {"mps_random": 2.0, "mps_product": 1.2, "mpo_ham": 1.2, "expand": 2.0, "evolve": 8.0, "ensure": 0.6, "move_qnidx": 0.6, "canonicalise": 0.4,
-         "unary": 0.6, "mpdm_from_mps": 0.5, "scale": 0.4, "drop": 0.2, "observe": 0.3}
+         "unary": 0.6, "mpdm_from_mps": 0.5, "scale": 0.4, "drop": 0.2, "observe": 0.3, "regauge": 1.2, "evolve_ovlp": 1.5}
 W_C10 = dict(W_C09, evolve=1.0, evolve_imag=6.0, mpdm_from_mps=1.0, max_entangled=1.5, thermal_job=2.5, exact_prop=0.8, evolve_exact=1.5)
 
 
